@@ -54,6 +54,7 @@ from runner import Case
 PROP = "C07"
 TITLE = "Serde serialization never loses data: it round-trips or returns an error"
 COQ_PROPS = "Props/C07.v"
+COQ_PROPS_EXTRA = ["Props/C07text.v"]
 DRIVER_NAME = "serde"
 HARNESS = {"bin": "serde"}
 THEOREMS = [
